@@ -7,3 +7,7 @@
 pub mod common;
 #[cfg(kani)]
 mod c15;
+#[cfg(kani)]
+mod c02;
+#[cfg(kani)]
+mod c16;
